@@ -330,6 +330,7 @@ class Interp(Hooks):
         self.inlined_functions: set[str] = set()
         self.bool_defs: dict[str, ast.expr] = {}
         self.comp_defs: dict[str, ast.expr] = {}
+        self.dict_defs: dict[str, ast.Dict] = {}
         self.site0 = None
         self.opaque_calls: dict[str, int] = {}
 
@@ -406,7 +407,8 @@ class Interp(Hooks):
         d: AState = st.data
         ev = Event(kind, name, args, node, self.depth, self.ctx(), d.dirty, pre, self.origin(node))
         ev._site0 = self.site0
-        ev.xctx = tuple(f.short for f, _ in self.stack if not self.own_helper(f))
+        # helper methods (anything but the constructor) of the analysed class and of nested user actions are not levels
+        ev.xctx = tuple(f.short for f, _ in self.stack if not (self.own_helper(f) or (f.cls is not None and f.cls.qname in self.user_q and f.name != "__init__")))
         ev.xdepth = len(ev.xctx)
         d.events.append(ev)
         return ev
@@ -476,9 +478,62 @@ class Interp(Hooks):
             return f"ite({self._subst(e.test, d)}, {bt}, {ot})"
         if isinstance(e, ast.UnaryOp) and isinstance(e.op, ast.Not):
             return f"not {self.term(e.operand, d)}"
+        if isinstance(e, (ast.ListComp, ast.SetComp, ast.GeneratorExp)) and len(e.generators) == 1 and isinstance(e.generators[0].target, ast.Name):
+            g = e.generators[0]
+            # [c for c in successors(p) if c != n]  with n a child of p: the other children of p
+            if isinstance(e.elt, ast.Name) and e.elt.id == g.target.id and len(g.ifs) == 1 and isinstance(g.ifs[0], ast.Compare) and len(g.ifs[0].ops) == 1 \
+                    and isinstance(g.ifs[0].ops[0], (ast.NotEq, ast.IsNot)):
+                it_t = self.term(g.iter, d)
+                pp = parse_call_term(it_t)
+                cmp_ = g.ifs[0]
+                sides = [cmp_.left, cmp_.comparators[0]]
+                other = [x for x in sides if not (isinstance(x, ast.Name) and x.id == g.target.id)]
+                if pp and pp[0] == "succs" and pp[2] == d.epoch and len(other) == 1:
+                    n_t = self.term(other[0], d)
+                    if self._edge_known(pp[1][0], n_t, d):
+                        return f"succs_minus({pp[1][0]}, {n_t})@{pp[2]}"
+            # a comprehension over a collection whose elements are known is the tuple of its element terms
+            elems = self._known_elements(self.term(g.iter, d), d)
+            if elems is not None:
+                out = []
+                ok = True
+                for el in elems:
+                    keep = True
+                    for cond in g.ifs:
+                        r = self._with_binding(g.target, el, d, lambda c=cond: self.decide(c, d))
+                        if r is None:
+                            ok = False
+                        elif r is False:
+                            keep = False
+                    if keep:
+                        out.append(self._with_binding(g.target, el, d, lambda: self.term(e.elt, d)))
+                if ok:
+                    return "(" + ", ".join(out) + ("," if len(out) == 1 else "") + ")" if out else "()"
         if isinstance(e, (ast.ListComp, ast.SetComp, ast.DictComp, ast.GeneratorExp, ast.Lambda, ast.JoinedStr)):
             return f"expr@L{getattr(e, 'lineno', 0)}c{getattr(e, 'col_offset', 0)}"
         return self._subst(e, d)
+
+    def _known_elements(self, t: str, d: AState):
+        """element terms of a collection term whose length is known now, else None"""
+        if is_tuple_term(t):
+            return split_tuple(t)
+        if t in ("()", "[]"):
+            return []
+        p = parse_call_term(t)
+        if p and p[0] in ("succs", "preds") and len(p[1]) == 1 and p[2] == d.epoch:
+            lo, hi, _ = self.deg(d, "out" if p[0] == "succs" else "in", p[1][0])
+            if lo == hi:
+                if lo == 1:
+                    els = [("succ1(" if p[0] == "succs" else "pred1(") + t[len(p[0]) + 1:]]
+                else:
+                    els = [f"{t}#{i}" for i in range(lo)]
+                # iterating the children / parents of a node names existing edges
+                for el in els:
+                    a, b = (p[1][0], el) if p[0] == "succs" else (el, p[1][0])
+                    if not d.has("noedge", a, b):
+                        self._add_edge_fact(d, a, b)
+                return els
+        return None
 
     def _other_child(self, test: ast.expr, bt: str, ot: str, d: AState):
         """`b if a == n else a` (or `a if a != n else b`) with (a, b) the two children of one parent: the OTHER child of
@@ -611,11 +666,25 @@ class Interp(Hooks):
                     return "indeg(" + b[len("preds("):]
                 if b.startswith("succs("):
                     return "outdeg(" + b[len("succs("):]
+                if b.startswith("succs_minus("):
+                    inner_, ep_ = b[len("succs_minus("):].rsplit(")@", 1)
+                    return f"outdegm1({split_tuple('(' + inner_ + ')')[0]})@{ep_}"
+                if b.startswith("in_edges("):
+                    return "indeg(" + b[len("in_edges("):]
+                if b.startswith("out_edges("):
+                    return "outdeg(" + b[len("out_edges("):]
                 if is_tuple_term(b):
                     return repr(len(split_tuple(b)))
                 return f"len({b})"
             if fn.id == "int" and len(a) == 1:
                 return a[0]
+            if fn.id == "zip" and len(a) >= 2:
+                lens = {len(split_tuple(x)) for x in a if is_tuple_term(x)}
+                if len(lens) == 1:
+                    n_ = lens.pop()
+                    cols = [split_tuple(x) if is_tuple_term(x) else [f"{x}[{i}]" for i in range(n_)] for x in a]
+                    if all(is_tuple_term(x) or x.startswith("$") for x in a):
+                        return "(" + ", ".join("(" + ", ".join(col[i] for col in cols) + ")" for i in range(n_)) + ")"
             return f"{fn.id}({', '.join(a)})"
         # --- Tracks API
         tgt = self.resolve(c, d)
@@ -816,10 +885,27 @@ class CondMixin:
             return True
         if t in ("False", "None", "()", "[]", "{}", "0", "''"):
             return False
+        cd = self._collection_degree(t, d)
+        if cd is not None:
+            lo, hi = cd[0], cd[1]
+            if lo >= 1:
+                return True
+            if hi == 0:
+                return False
+            return None
         if is_tuple_term(t) and split_tuple(t):
             return True
         if t.startswith("obj"):
             return True
+        return None
+
+    def _collection_degree(self, t: str, d: AState):
+        """(lo, hi, which, node) for a term denoting the predecessors / successors / in- / out-edges of a node now"""
+        p = parse_call_term(t)
+        if p and p[0] in ("preds", "succs", "in_edges", "out_edges") and len(p[1]) == 1 and p[2] == d.epoch:
+            which = "in" if p[0] in ("preds", "in_edges") else "out"
+            lo, hi, _ = self.deg(d, which, p[1][0])
+            return lo, hi, which, p[1][0]
         return None
 
     def _edge_known(self, a: str, b: str, d: AState):
@@ -865,9 +951,18 @@ class CondMixin:
                 return True
         return None
 
+    @staticmethod
+    def _unshift(L: str, R: str):
+        """len(other children of p) compared with k  ==  out_degree(p) compared with k + 1"""
+        if L.startswith("outdegm1(") and _int(R) is not None:
+            return "outdeg(" + L[len("outdegm1("):], str(int(R) + 1)
+        if R.startswith("outdegm1(") and _int(L) is not None:
+            return str(int(L) + 1), "outdeg(" + R[len("outdegm1("):]
+        return L, R
+
     def _decide_cmp(self, e: ast.Compare, d: AState):
         op = e.ops[0]
-        L, R = self.term(e.left, d), self.term(e.comparators[0], d)
+        L, R = self._unshift(self.term(e.left, d), self.term(e.comparators[0], d))
         if isinstance(op, (ast.Is, ast.IsNot)):
             r = None
             if R == "None":
@@ -1014,13 +1109,23 @@ class CondMixin:
             return
         if not (isinstance(e, ast.Compare) and len(e.ops) == 1):
             t = self.term(e, d)
+            cd = self._collection_degree(t, d)
+            if cd is not None:
+                # truthiness of the predecessors / successors / incident edges of a node = degree >= 1
+                lo, hi, which, n = cd
+                _, _, ax = self.deg(d, which, n)
+                if outcome:
+                    self.set_deg(d, which, n, max(lo, 1), max(hi, 1), ax)
+                else:
+                    self.set_deg(d, which, n, 0, 0, False)
+                return
             # truthiness of an optional value
             if outcome:
                 d.add("notnone", t)
                 d.add("truthy", t)
             return
         op = e.ops[0]
-        L, R = self.term(e.left, d), self.term(e.comparators[0], d)
+        L, R = self._unshift(self.term(e.left, d), self.term(e.comparators[0], d))
         if isinstance(op, (ast.Is, ast.IsNot)):
             val = outcome if isinstance(op, ast.Is) else not outcome
             t = L if R == "None" else (R if L == "None" else None)
@@ -1220,7 +1325,13 @@ class Engine(CondMixin, Interp):
                 return False
             if self.P.is_subclass(fi.cls.qname, "AnnotatorRegistry") and fi.name in ("update", "compute"):
                 return False
-        return any(self.flags(fi))
+        if any(self.flags(fi)):
+            return True
+        # a pure helper of the analysed class still decides which sub-edits are built (it returns the nodes / edges /
+        # flags the constructor acts on): follow it so that its guards become facts
+        if fi.name == "__init__":
+            return False
+        return self.own_helper(fi) or (fi.cls is not None and fi.cls.qname in self.user_q)
 
     # ---------------- PathWalker hooks
     def absorb(self, kept: PState, dropped: PState) -> None:
@@ -1387,7 +1498,7 @@ class Engine(CondMixin, Interp):
                 else:
                     et = self._index(term, i, d)
                     if p and p[0] == "succs":
-                        et = f"{term}#{i}"
+                        et = f"{term}#{i}" if n > 1 else "succ1(" + term[len("succs("):]
                         self._add_edge_fact(d, p[1][0], et)
                     self.bind_target(x, et, st)
         elif isinstance(tgt, ast.Attribute):
@@ -1483,9 +1594,95 @@ class Engine(CondMixin, Interp):
         visit(stmt, False)
         return out
 
+    def dispatch_fork(self, st: PState, stmt: ast.stmt, _ret: bool):
+        """`x = TABLE.get(K)` / `x = TABLE[K]` where TABLE is a local dict literal with constant keys: one successor
+        state per entry (learning K == key) and, for .get, one for 'no entry' (learning K != every key)."""
+        if not (isinstance(stmt, ast.Assign) and len(stmt.targets) == 1 and isinstance(stmt.targets[0], ast.Name)):
+            return None
+        v = stmt.value
+        table, key, default = None, None, None
+        if isinstance(v, ast.Call) and isinstance(v.func, ast.Attribute) and v.func.attr == "get" and isinstance(v.func.value, ast.Name) and v.func.value.id in self.dict_defs and v.args:
+            table, key = self.dict_defs[v.func.value.id], v.args[0]
+            default = v.args[1] if len(v.args) > 1 else ast.Constant(None)
+        elif isinstance(v, ast.Subscript) and isinstance(v.value, ast.Name) and v.value.id in self.dict_defs:
+            table, key = self.dict_defs[v.value.id], v.slice
+        if table is None or getattr(stmt, "_dispatched", False):
+            return None
+        outs = []
+        for k_, val in zip(table.keys, table.values, strict=True):
+            test = ast.Compare(left=key, ops=[ast.Eq()], comparators=[k_])
+            r = self.decide(test, st.data)
+            if r is False:
+                continue
+            st2 = st.fork()
+            self.learn(test, True, st2.data)
+            new = ast.copy_location(ast.Assign(targets=stmt.targets, value=val), stmt)
+            new._dispatched = True
+            new._origin = getattr(stmt, "_origin", None)
+            ast.fix_missing_locations(new)
+            sub = self.expand(st2, new, _ret)
+            outs.extend(sub if sub is not None else [(st2, "next")])
+            if r is True:
+                return outs
+        if default is not None:
+            st2 = st.fork()
+            for k_ in table.keys:
+                self.learn(ast.Compare(left=key, ops=[ast.Eq()], comparators=[k_]), False, st2.data)
+            new = ast.copy_location(ast.Assign(targets=stmt.targets, value=default), stmt)
+            new._dispatched = True
+            new._origin = getattr(stmt, "_origin", None)
+            ast.fix_missing_locations(new)
+            sub = self.expand(st2, new, _ret)
+            outs.extend(sub if sub is not None else [(st2, "next")])
+        return outs or None
+
+    def bound_method_call(self, c: ast.Call, d: AState):
+        """`f(args)` where the local f holds a bound method of an analysed object (`f = self._helper`)"""
+        if not isinstance(c.func, ast.Name):
+            return None
+        t = d.vars.get(c.func.id)
+        if not isinstance(t, str):
+            return None
+        m = _re.fullmatch(r"(\$\w*self|obj\w+:(\w+))\.(\w+)", t)
+        if not m:
+            return None
+        if m.group(2):
+            cls = self.P.class_named(m.group(2))
+        else:
+            owner = self.stack[-1][0] if self.stack else self.entry
+            cls = owner.cls
+        if cls is None:
+            return None
+        callee = self.P.lookup_method(cls.qname, m.group(3))
+        if callee is None:
+            return None
+        recv = t.rsplit(".", 1)[0]
+        tmp = "_rrecv%d" % (getattr(c, "lineno", 0) * 1000 + getattr(c, "col_offset", 0))
+        d.vars[tmp] = recv
+        call2 = ast.copy_location(ast.Call(func=ast.Attribute(value=ast.Name(tmp, ast.Load()), attr=m.group(3), ctx=ast.Load()), args=c.args, keywords=c.keywords), c)
+        ast.fix_missing_locations(call2)
+        for n_ in ast.walk(call2.func):
+            n_._origin = getattr(c, "_origin", None)
+        call2._origin = getattr(c, "_origin", None)
+        return callee, call2
+
     def expand(self, st: PState, stmt: ast.stmt, _ret: bool):
         d: AState = st.data
+        forked = self.dispatch_fork(st, stmt, _ret)
+        if forked is not None:
+            return self.dedupe(forked)
         for c in self.inlinable_calls(stmt, d):
+            bm = self.bound_method_call(c, d)
+            if bm is not None and self.should_inline(bm[0]):
+                outs = []
+                for st2, kind, tmp in self.inline(st, bm[1], bm[0], None):
+                    if kind != "next":
+                        outs.append((st2, kind))
+                        continue
+                    new_stmt = _replace_call(stmt, c, tmp)
+                    sub = self.expand(st2, new_stmt, _ret)
+                    outs.extend(sub if sub is not None else [(st2, "next")])
+                return self.dedupe(outs)
             tgt = self.resolve(c, d)
             callee, cls = None, None
             if tgt and tgt[0] == "class":
@@ -1859,6 +2056,8 @@ def _engine_transfer(self: Engine, st: PState, stmt: ast.stmt, _ret: bool) -> No
             ):
                 self.bool_defs[t.id] = stmt.value
                 d.vars[f"__bdef.{t.id}"] = str(d.epoch)
+            if isinstance(t, ast.Name) and isinstance(stmt.value, ast.Dict) and stmt.value.keys and all(isinstance(k_, ast.Constant) for k_ in stmt.value.keys):
+                self.dict_defs[t.id] = stmt.value
             if isinstance(t, ast.Name) and isinstance(stmt.value, (ast.ListComp, ast.SetComp)) and len(stmt.value.generators) == 1 and stmt.value.generators[0].ifs:
                 self.comp_defs[t.id] = stmt.value
                 d.vars[f"__cdef.{t.id}"] = str(d.epoch)
